@@ -58,7 +58,8 @@ func awkStore() {
 
 var awkIDs = [][2]int{{1, 1}, {2, 1}, {3, 1}, {4, 1}, {5, 1}, {6, 1},
 	{20, 1}, {20, 2}, {20, 3}, {20, 4}, {20, 5}, {20, 6}, {20, 7}, {20, 8}, {20, 9},
-	{21, 1}, {21, 2}, {21, 3}, {21, 5}, {21, 6}, {21, 8}, {21, 9}, {22, 1}, {23, 1}, {24, 1}, {25, 1}, {26, 1}, {27, 1}, {28, 1}, {29, 1}}
+	{21, 1}, {21, 2}, {21, 3}, {21, 5}, {21, 6}, {21, 8}, {21, 9}, {22, 1}, {23, 1}, {24, 1}, {25, 1}, {26, 1}, {27, 1}, {28, 1}, {29, 1},
+	{33, 1}, {34, 1}, {35, 1}, {35, 2}, {35, 3}}
 
 func genAwkVal(r *rand.Rand) V {
 	switch r.Intn(6) {
@@ -114,7 +115,11 @@ func genAwk(r *rand.Rand, id string, tier string) string {
 		case 14:
 			ops = append(ops, "q condex "+genAwkVal(r).String())
 		case 15:
-			ops = append(ops, "q xfer "+genAwkVal(r).String())
+			if r.Intn(2) == 0 {
+				ops = append(ops, "q revealin "+genAwkVal(r).String())
+			} else {
+				ops = append(ops, "q xfer "+genAwkVal(r).String())
+			}
 		}
 	}
 	return st.String() + " | " + strings.Join(ops, " ; ")
@@ -151,6 +156,13 @@ func runAwk(payload string) string {
 					s.Transfer(cp)
 				case "reveal":
 					s.Reveal()
+				case "revealin":
+					// the value as the only element of an envelope (and of an envelope in an envelope): Reveal asks it nothing
+					// unless it is a Stack or a Condition
+					x, _ := parseV(t[2:])
+					gx := Build(x)
+					stackage.List().Push(stackage.And().Push(gx)).Reveal()
+					stackage.And().Push(stackage.Or().Push(stackage.List().Push(gx)), 1).Reveal()
 				case "defrag":
 					s.Defrag()
 				case "traverse":
